@@ -401,7 +401,8 @@ class C01(TraceProp):
             'live tables read by SQL; non-trivial = >= 2 transactions with a versioned change or >= 2 flushes in '
             'one transaction; distinct = distinct (spec, program)')
     needs_tags = ['multi_flush_tx', 'multi_tx', 'key_reused_after_delete', 'shape:joined', 'shape:single',
-                  'shape:composite', 'plugin:null_delete', 'strategy:subquery', 'autoflush', 'rollback']
+                  'shape:composite', 'plugin:null_delete', 'strategy:subquery', 'autoflush', 'rollback', 'ev:sprollback']
+    weights = {'sp_begin': 1, 'sp_commit': 1, 'sp_rollback': 2}
 
     def pick_plugins(self, rng):
         return None
@@ -413,7 +414,7 @@ class C02(TraceProp):
     sections = ('txs', 'mgr')
     seg_fields = ('C02',)
     shapes = ['articles', 'articles_excl', 'comment', 'comment', 'm2m', 'joined', 'composite']
-    weights = {'manual_tx': 2, 'flush': 7, 'setrel': 4, 'link': 4, 'set_same': 4, 'sp_begin': 2, 'sp_commit': 3, 'commit': 8}
+    weights = {'manual_tx': 2, 'flush': 7, 'setrel': 4, 'link': 4, 'set_same': 4, 'sp_begin': 2, 'sp_commit': 3, 'sp_rollback': 2, 'commit': 8}
     rule = ('random session programs with versioned and non-versioned changes (non-versioned neighbour class, '
             'relationship-only changes, same-value sets, excluded-column-only changes) split arbitrarily into '
             'flushes and commits, with manual early creation of the transaction record; transaction table, the '
@@ -473,7 +474,7 @@ class C11(TraceProp):
                 'Continuum.specOp_snoc_ins', 'Continuum.specOp_snoc_del']
     sections = ('versions', 'mgr')
     seg_fields = ('C11',)
-    weights = {'flush': 12, 'commit': 1, 'rollback': 0, 'del': 5, 'readd': 5, 'add': 5, 'query': 2, 'sp_begin': 2, 'sp_commit': 3}
+    weights = {'flush': 12, 'commit': 1, 'rollback': 0, 'del': 5, 'readd': 5, 'add': 5, 'query': 2, 'sp_begin': 2, 'sp_commit': 3, 'sp_rollback': 2}
     rule = ('random programs dominated by ONE long transaction with many flush / autoflush points over insert / '
             'update / delete / re-insert of few keys, both strategies, with and without the tracker plugin; version '
             'rows, operations dictionary (key, type, processed) and version-object cache keys compared with the model '
